@@ -248,6 +248,14 @@ func (w *worker) runSel(c *selCase, raw []byte) {
 			before := snap(doc)
 			log := &callLog{}
 			cfg := modelConfig(log, false)
+			if P["C18"] && si > 0 && w.n%2 == 0 {
+				// every other case: the other spellings are parsed right after Parse calls that FAILED half-way (inside a
+				// filter, inside a bracket, at a function) -- a spelling means the same whatever was parsed before
+				for _, bad := range []string{"$.x[?(@.a.nofunc())]", "$.y['a',", "$.z[?(@.a == )]"} {
+					safeParse(bad, &cfg)
+				}
+				w.count("C18:spellings-parsed-after-failed-parses", 1)
+			}
 			pr := safeParse(text, &cfg)
 			if pr.Panic != nil || pr.Err != nil || pr.F == nil {
 				w.viol(primary(P, "C01", "C18"), "parse-failed", text, before, fmt.Sprintf("Parse of a rendered sentence: err=%v panic=%v", pr.Err, pr.Panic), kinds, raw)
